@@ -549,6 +549,18 @@ func replayNBT(env *vk.Env, b []byte) {
 	json.Unmarshal(b, &f)
 	env.Cov.States, env.Cov.Transitions = 1, 1
 	env.Sample("replayed line")
+	var k struct {
+		Replay struct {
+			Kind  string   `json:"kind"`
+			Tree  *nbtNode `json:"tree"`
+			Where string   `json:"where"`
+		} `json:"replay"`
+	}
+	json.Unmarshal(b, &k)
+	if k.Replay.Kind == "snbtcarrier" && k.Replay.Tree != nil {
+		snCarrierJudge(env, []snCarrierItem{{k.Replay.Tree, k.Replay.Where, "replay"}}, "replay StringifiedMessage carrier")
+		return
+	}
 	if sig, detail, rej := nbtRejudgeLine(env, f.Replay.Line); rej {
 		env.Report(sig, detail, f.Replay)
 	}
@@ -751,6 +763,7 @@ func runC02(env *vk.Env) {
 		allowDupKeys = false
 	}
 	nbtFlush(env, &tr, "B carriers re-emit byte for byte", &part, true)
+	nbtSnbtCarrierLeg(env, rng)
 }
 
 // nbtCarrierNested wraps the document's root value into a compound / list, decodes it into a struct
